@@ -302,7 +302,7 @@ func init() {
 		c09Structural(c, u, &tkBudget{max: 150})
 		n, ops, prob, max := 8, 250, 2, 1000
 		if !quick {
-			n, ops, prob, max = 40, 500, 2, 9000
+			n, ops, prob, max = 100, 600, 6, 10000
 		}
 		c.walk(u, walkOpts{Worlds: n, Ops: ops, Proj: proj, Monitors: []monitor{monC09}, Tune: c09Tune, EmitProb: prob, MaxCases: max})
 	}
